@@ -100,6 +100,9 @@ func cmdCheck(args []string) {
 		fmt.Fprintln(os.Stderr, "bad config:", err)
 		os.Exit(2)
 	}
+	if cfg.Harness == nil && len(cfg.Bounded) > 0 {
+		cfg.Harness = &cfg.Bounded[0] // the stand-in doubles as the witness search
+	}
 	evPath := *evidenceOut
 	if evPath == "" {
 		evPath = filepath.Join(*verif, "evidence", cfg.ID+".json")
